@@ -979,6 +979,7 @@ func genC20(c *Ctx) {
 	genC20CellSizes(c, nMut)
 	genC20BocDocs(c)
 	genC20BocCuts(c)
+	genC20Spellings(c)
 	case20{fam: "cell", arg: sx.Nat(0), class: "cell"}.hand(c, append([]string{"\"b5ee9c72\"", "\"b5ee9c7201\"", "\"b5ee9c72010101010002000000\"", "\"B5EE9C72010101010002000000\"", "\"b5ee9c7201010101000200000\"", "\"b5ee9c720101010100020000000\"", "\"b5ee9c72010102010002000000\"", "b5ee9c72010101010002000000"}, commonDocs20...)...)
 
 	// ---- Maybe[T] over several inner families
